@@ -454,9 +454,10 @@ def finish(ctx, rule, exhaustive=False, extra_cov=None):
     ev = {"property_id": ctx.prop, "tier": ctx.tier, "seed": ctx.seed, "level": ctx.level,
           "coverage": cov, "assumptions": ctx.assumptions, "wall_s": round(wall, 2),
           "violations": len(ctx.violations)}
-    os.makedirs(os.path.join(VERIF, "evidence"), exist_ok=True)
-    with open(os.path.join(VERIF, "evidence", "%s.json" % ctx.prop), "w") as f:
-        json.dump(ev, f, indent=1)
+    if not getattr(ctx, "replay", None):          # a replay of one recorded input is not a run of the check: it leaves the evidence alone
+        os.makedirs(os.path.join(VERIF, "evidence"), exist_ok=True)
+        with open(os.path.join(VERIF, "evidence", "%s.json" % ctx.prop), "w") as f:
+            json.dump(ev, f, indent=1)
     for dnote in ctx.drift[:5]:
         log("CONFORMANCE-DRIFT:", json.dumps(dnote)[:400])
     log("%s %s: %d states, %d observations validated, %d violations, %d known findings, %.1fs"
